@@ -136,7 +136,7 @@ func (c *ApplyCase) Run() string {
 			return desc + ": " + m
 		}
 	}
-	if dest != nil && !dest.b.Detached {
+	if dest != nil && !dest.b.Detached && !dest.b.CoversRoot() {
 		cur := readAll(dest.b.T)
 		if diff := dest.b.FrameDiff(dest.b.ExpectRoot(cur)); diff != "" {
 			return desc + ": destination's parent outside the view: " + diff
